@@ -191,3 +191,40 @@ package fs
 //@   loop 3 invariant 0 <= i && i <= toRead @idx
 //@   loop 3 invariant forall x {raw(buf, x)} :: raw(buf, x) == ((base(buf) <= x && x < base(buf) + i) ? 0 : pre(raw(buf, x))) @zeroed
 //@   loop 3 decreases toRead - i
+
+//@ func VirtualISO.Seek results(pos, err)
+//@   tags C04,C09
+//@   requires viso != nil && 0 <= viso.offset && viso.offset <= viso.totalSize && viso.totalSize >= 0 && viso.totalSize < 1<<41
+//@   requires -(1<<62) < offset && offset < 1<<62
+//@   let target = whence == 0 ? offset : (whence == 1 ? viso.offset + offset : viso.totalSize + offset)
+//@   modifies viso.offset
+//@   ensures[C09] viso.isClosed ==> err == afero.ErrFileClosed && viso.offset == old(viso.offset) @closed
+//@   ensures[C09] !viso.isClosed && !(whence == 0 || whence == 1 || whence == 2) ==> err != nil && viso.offset == old(viso.offset) @whence
+//@   ensures[C09] !viso.isClosed && (whence == 0 || whence == 1 || whence == 2) && 0 <= target && target <= viso.totalSize ==> err == nil && pos == target && viso.offset == target @ok
+//@   ensures[C09] !viso.isClosed && (whence == 0 || whence == 1 || whence == 2) && (target < 0 || target > viso.totalSize) ==> err != nil && viso.offset == old(viso.offset) @range
+
+//@ func VirtualISO.Read results(n, err)
+//@   tags C04,C09
+//@   any t int
+//@   requires wfISO(viso) && imgDef(viso) && viso.offset <= viso.totalSize && p.$arr != viso.fsBuf.$arr
+//@   modifies elems(p), elems(viso.files).file, fopen, fpos, iofaults, viso.offset
+//@   ensures[C09,C04] 0 <= n && n <= len(p) && viso.offset == old(viso.offset) + n && viso.offset <= viso.totalSize @cursor
+//@   ensures[C09] viso.isClosed ==> n == 0 && err == afero.ErrFileClosed @closed
+//@   ensures[C09] !viso.isClosed && (old(viso.offset) >= viso.totalSize || len(p) == 0) ==> n == 0 && err == io.EOF @eof
+//@   ensures[C09] !viso.isClosed && old(viso.offset) < viso.totalSize && len(p) > 0 && err == nil ==> n > 0 @progress
+//@   ensures[C09] !viso.isClosed && old(viso.offset) < viso.totalSize && len(p) > 0 && iofaults == old(iofaults) && filesIntact(viso) ==> err == nil @no-spurious-error
+//@   ensures[C09,C07] 0 <= t && t < n ==> raw(p, base(p) + t) == img(viso, old(viso.offset) + t) @content
+//@   ensures wfISO(viso) && iofaults >= old(iofaults)
+
+//@ func VirtualISO.ReadAt results(n, err)
+//@   tags C04,C09
+//@   any t int
+//@   requires wfISO(viso) && imgDef(viso) && off >= 0 && off < 1<<41 && p.$arr != viso.fsBuf.$arr
+//@   modifies elems(p), elems(viso.files).file, fopen, fpos, iofaults
+//@   ensures[C09,C04] 0 <= n && n <= len(p) && viso.offset == old(viso.offset) @cursor-untouched
+//@   ensures[C09] viso.isClosed ==> n == 0 && err == afero.ErrFileClosed @closed
+//@   ensures[C09] !viso.isClosed && (off >= viso.totalSize || len(p) == 0) ==> n == 0 && err == io.EOF @eof
+//@   ensures[C09] !viso.isClosed && off < viso.totalSize && len(p) > 0 && err == nil ==> n > 0 @progress
+//@   ensures[C09,C07] 0 <= t && t < n ==> raw(p, base(p) + t) == img(viso, off + t) @content
+//@   ensures n > 0 ==> off + n <= viso.totalSize
+//@   ensures wfISO(viso) && iofaults >= old(iofaults)
